@@ -196,10 +196,20 @@ def bindFrom {α : Type} (pos : List α) (kws : List (Name × α)) : Nat → Lis
 
 /-- bind the arguments to the parameters as a Python call does: positional ones in order, keyword
     ones by name; every parameter gets exactly one argument and no argument is left over -/
+def posOf {α : Type} (ka : Option Name × α) : Option α :=
+  match ka.1 with
+  | none => some ka.2
+  | some _ => none
+
+def kwOf {α : Type} (ka : Option Name × α) : Option (Name × α) :=
+  match ka.1 with
+  | some n => some (n, ka.2)
+  | none => none
+
 def bindArgs {α : Type} (params : List Name) (args : List (Option Name × α)) : Option (List (Name × α)) :=
-  let pos := args.filterMap (fun ka => match ka.1 with | none => some ka.2 | some _ => none)
-  let kws := args.filterMap (fun ka => match ka.1 with | some n => some (n, ka.2) | none => none)
-  if pos.length + kws.length = params.length then bindFrom pos kws 0 params else none
+  if (args.filterMap posOf).length + (args.filterMap kwOf).length = params.length then
+    bindFrom (args.filterMap posOf) (args.filterMap kwOf) 0 params
+  else none
 
 abbrev SRun := XExpr → SEnv → Nat → Option Res
 
@@ -535,6 +545,92 @@ def xgen (P : XProgram) (inp : List Nat) : Nat → XExpr → Locals → Nat → 
           | none => none
           | some L' => (run T.body L' p).map (fun (r, _) => (r, L))
     | .bseq items ctor fields => implItems run ctor fields p items L p
+
+/-! ### textual expansion: replacing parser parameters by argument expressions -/
+
+abbrev Subst := List (Name × XExpr)
+
+def lookupσ (σ : Subst) (x : Name) : Option XExpr :=
+  match σ with
+  | [] => none
+  | (y, a) :: rest => if x = y then some a else lookupσ rest x
+
+def dropσ (x : Name) (σ : Subst) : Subst := σ.filter (fun ya => ya.1 != x)
+
+mutual
+/-- replace every free use of a parameter as a parser by the argument expression; a binder of the
+    same name ends the replacement in its scope -/
+def subst (σ : Subst) : XExpr → XExpr
+  | .lit s => .lit s
+  | .cc lo hi => .cc lo hi
+  | .seq xs => .seq (substList σ xs)
+  | .choice xs => .choice (substList σ xs)
+  | .star e => .star (subst σ e)
+  | .opt e => .opt (subst σ e)
+  | .ref r => .ref r
+  | .pvar x => (lookupσ σ x).getD (.pvar x)
+  | .py t => .py t
+  | .let_ x e b => .let_ x (subst σ e) (subst (dropσ x σ) b)
+  | .where_ e q => .where_ (subst σ e) (subst σ q)
+  | .apply e f => .apply (subst σ e) (subst σ f)
+  | .applyL f e => .applyL (subst σ f) (subst σ e)
+  | .rep e t => .rep (subst σ e) t
+  | .call t args => .call t (substArgs σ args)
+  | .bseq items ctor fields => .bseq (substItems σ items) ctor fields
+def substList (σ : Subst) : List XExpr → List XExpr
+  | [] => []
+  | x :: xs => subst σ x :: substList σ xs
+def substArgs (σ : Subst) : List (Option Name × XExpr) → List (Option Name × XExpr)
+  | [] => []
+  | (k, e) :: rest => (k, subst σ e) :: substArgs σ rest
+def substItems (σ : Subst) : List (Option Name × XExpr) → List (Option Name × XExpr)
+  | [] => []
+  | (none, e) :: rest => (none, subst σ e) :: substItems σ rest
+  | (some x, e) :: rest => (some x, subst σ e) :: substItems (dropσ x σ) rest
+end
+
+def inDom (σ : Subst) (x : Name) : Bool := (lookupσ σ x).isSome
+
+def noneInDom (σ : Subst) (names : List Name) : Bool := names.all (fun x => !inDom σ x)
+
+mutual
+/-- inline Python does not mention a replaced parameter (a parser has no value) -/
+def pyAvoids (σ : Subst) : XExpr → Bool
+  | .lit _ => true
+  | .cc _ _ => true
+  | .seq xs => pyAvoidsList σ xs
+  | .choice xs => pyAvoidsList σ xs
+  | .star e => pyAvoids σ e
+  | .opt e => pyAvoids σ e
+  | .ref _ => true
+  | .pvar _ => true
+  | .py t => noneInDom σ t.names
+  | .let_ x e b => pyAvoids σ e && pyAvoids (dropσ x σ) b
+  | .where_ e q => pyAvoids σ e && pyAvoids σ q
+  | .apply e f => pyAvoids σ e && pyAvoids σ f
+  | .applyL f e => pyAvoids σ f && pyAvoids σ e
+  | .rep e t => pyAvoids σ e && noneInDom σ t.names
+  | .call _ args => pyAvoidsArgs σ args
+  | .bseq items _ fields => pyAvoidsItems σ fields items
+def pyAvoidsList (σ : Subst) : List XExpr → Bool
+  | [] => true
+  | x :: xs => pyAvoids σ x && pyAvoidsList σ xs
+def pyAvoidsArgs (σ : Subst) : List (Option Name × XExpr) → Bool
+  | [] => true
+  | (_, e) :: rest => pyAvoids σ e && pyAvoidsArgs σ rest
+def pyAvoidsItems (σ : Subst) (fields : List Name) : List (Option Name × XExpr) → Bool
+  | [] => noneInDom σ fields
+  | (none, e) :: rest => pyAvoids σ e && pyAvoidsItems σ fields rest
+  | (some x, e) :: rest => pyAvoids σ e && pyAvoidsItems (dropσ x σ) fields rest
+end
+
+def XExpr.isPy : XExpr → Bool
+  | .py _ => true
+  | _ => false
+
+/-- arguments that can be written in place of the parameter: closed parsing expressions
+    (string literals included), not inline Python -/
+def closedArgs (σ : Subst) : Bool := σ.all (fun ya => (fv ya.2).isEmpty && !ya.2.isPy)
 
 /-! ### well-scoped programs without shadowing -/
 
